@@ -26,10 +26,10 @@ def encSidxRef (r : SidxRef) : Bytes :=
   encU32 (r.ref_type * 2147483648 + r.ref_size) ++ (encU32 r.duration ++
     encU32 (r.starts_with_SAP * 2147483648 + r.SAP_type * 268435456 + r.SAP_delta_time))
 
-def decSidxRef (bs : Bytes) : Option (SidxRef × Bytes) := do
-  let (a, bs) ← decU32 bs
-  let (d, bs) ← decU32 bs
-  let (c, bs) ← decU32 bs
+def decSidxRef (bs : Bytes) : Option (SidxRef × Bytes) :=
+  andThen (decU32 bs) fun a bs =>
+  andThen (decU32 bs) fun d bs =>
+  andThen (decU32 bs) fun c bs =>
   some ({ ref_type := a / 2147483648, ref_size := a % 2147483648, duration := d,
           starts_with_SAP := c / 2147483648, SAP_type := c / 268435456 % 8,
           SAP_delta_time := c % 268435456 }, bs)
@@ -58,16 +58,16 @@ def encSidx (x : Sidx) : Bytes :=
 
 /-- returns the box and the value of the 16 reserved bits that `parse` skips
 (`r.skip(2)`) and `encode` writes as 0 -/
-def decSidxR' (bs : Bytes) : Option ((Sidx × Nat) × Bytes) := do
-  let (version, bs) ← decU8 bs
-  let (flags, bs) ← decU24 bs
-  let (rid, bs) ← decU32 bs
-  let (ts, bs) ← decU32 bs
-  let (ept, bs) ← decW (version != 0) bs
-  let (fo, bs) ← decW (version != 0) bs
-  let (reserved, bs) ← decU16 bs
-  let (n, bs) ← decU16 bs
-  let (refs, bs) ← decMany decSidxRef n bs
+def decSidxR' (bs : Bytes) : Option ((Sidx × Nat) × Bytes) :=
+  andThen (decU8 bs) fun version bs =>
+  andThen (decU24 bs) fun flags bs =>
+  andThen (decU32 bs) fun rid bs =>
+  andThen (decU32 bs) fun ts bs =>
+  andThen (decW (version != 0) bs) fun ept bs =>
+  andThen (decW (version != 0) bs) fun fo bs =>
+  andThen (decU16 bs) fun reserved bs =>
+  andThen (decU16 bs) fun n bs =>
+  andThen (decMany decSidxRef n bs) fun refs bs =>
   some (({ version := version, flags := flags, reference_id := rid, timescale := ts,
            earliest_presentation_time := ept, first_offset := fo, references := refs }, reserved), bs)
 
@@ -106,32 +106,32 @@ def encEmsg (x : Emsg) : Bytes :=
       encU32 x.timescale ++ (encU64 x.presentation_time ++ (encU32 x.event_duration ++
         (encU32 x.event_id ++ (encCStr x.scheme_id_uri ++ (encCStr x.value ++ x.data)))))))
 
-def decEmsgV0 (version flags : Nat) (bs : Bytes) : Option Emsg := do
-  let (scheme, bs) ← decCStr bs
-  let (value, bs) ← decCStr bs
-  let (ts, bs) ← decU32 bs
-  let (ptd, bs) ← decU32 bs
-  let (dur, bs) ← decU32 bs
-  let (eid, bs) ← decU32 bs
+def decEmsgV0 (version flags : Nat) (bs : Bytes) : Option Emsg :=
+  andThen (decCStr bs) fun scheme bs =>
+  andThen (decCStr bs) fun value bs =>
+  andThen (decU32 bs) fun ts bs =>
+  andThen (decU32 bs) fun ptd bs =>
+  andThen (decU32 bs) fun dur bs =>
+  andThen (decU32 bs) fun eid bs =>
   some { version := version, flags := flags, scheme_id_uri := scheme, value := value,
          timescale := ts, presentation_time_delta := ptd, presentation_time := 0,
          event_duration := dur, event_id := eid, data := bs }
 
-def decEmsgV1 (version flags : Nat) (bs : Bytes) : Option Emsg := do
-  let (ts, bs) ← decU32 bs
-  let (pt, bs) ← decU64 bs
-  let (dur, bs) ← decU32 bs
-  let (eid, bs) ← decU32 bs
-  let (scheme, bs) ← decCStr bs
-  let (value, bs) ← decCStr bs
+def decEmsgV1 (version flags : Nat) (bs : Bytes) : Option Emsg :=
+  andThen (decU32 bs) fun ts bs =>
+  andThen (decU64 bs) fun pt bs =>
+  andThen (decU32 bs) fun dur bs =>
+  andThen (decU32 bs) fun eid bs =>
+  andThen (decCStr bs) fun scheme bs =>
+  andThen (decCStr bs) fun value bs =>
   some { version := version, flags := flags, scheme_id_uri := scheme, value := value,
          timescale := ts, presentation_time_delta := 0, presentation_time := pt,
          event_duration := dur, event_id := eid, data := bs }
 
 /-- versions ≥ 2 are outside the model (the code keeps only `data` for them) -/
-def decEmsg (bs : Bytes) : Option Emsg := do
-  let (version, bs) ← decU8 bs
-  let (flags, bs) ← decU24 bs
+def decEmsg (bs : Bytes) : Option Emsg :=
+  andThen (decU8 bs) fun version bs =>
+  andThen (decU24 bs) fun flags bs =>
   if version = 0 then decEmsgV0 version flags bs
   else if version = 1 then decEmsgV1 version flags bs
   else none
